@@ -227,7 +227,7 @@ class Origin:
             if callable(self.mode):
                 self.mode(c, a, rec)
                 return
-            c.settimeout(30)
+            c.settimeout(900)
             while True:
                 try:
                     d = c.recv(65536)
@@ -255,6 +255,11 @@ class Origin:
 
     def stop(self):
         self.stopped = True
+        try:
+            # wakes a thread blocked in accept(): otherwise the kernel keeps the listening socket (and the port) alive
+            self.sock.shutdown(socket.SHUT_RDWR)
+        except OSError:
+            pass
         try:
             self.sock.close()
         except OSError:
@@ -468,7 +473,7 @@ def run_parallel(items, fn, workers=12):
 # ------------------------------------------------------------------ fake upstream proxies (behaviour chosen by the requested host name)
 
 def _echo_loop(c):
-    c.settimeout(30)
+    c.settimeout(900)
     try:
         while True:
             d = c.recv(65536)
